@@ -291,3 +291,35 @@ pub struct QueryResult<TTarget, TClosest> {
     /// The closest peers to the target found by the query.
     pub closest_peers: TClosest,
 }
+
+#[cfg(feature = "verif-hooks")]
+impl<TTarget, TNodeId, TResult> Query<TTarget, TNodeId, TResult>
+where
+    TNodeId: Clone,
+{
+    /// Verification hook: a copy of the state of the underlying peer iterator.
+    pub fn verif_dump(&self) -> crate::verif::query::QueryDump<TNodeId> {
+        match &self.peer_iter {
+            QueryPeerIter::FindNode(iter) => iter.verif_dump(),
+            QueryPeerIter::Predicate(iter) => iter.verif_dump(),
+        }
+    }
+
+    /// Verification hook: the value of `started`.
+    pub fn verif_started(&self) -> Option<Instant> {
+        self.started
+    }
+}
+
+#[cfg(feature = "verif-hooks")]
+impl<TTarget, TNodeId, TResult> QueryPool<TTarget, TNodeId, TResult> {
+    /// Verification hook: the value of `next_id`.
+    pub fn verif_next_id(&self) -> usize {
+        self.next_id
+    }
+
+    /// Verification hook: sets `next_id` (to reach the wrap-around of the id counter).
+    pub fn verif_set_next_id(&mut self, next_id: usize) {
+        self.next_id = next_id;
+    }
+}
